@@ -1,0 +1,25 @@
+//go:build verif
+
+package idxfile
+
+// Contracts for the gvc verifier (/verif). Comment-only; never compiled into
+// a normal build.
+
+//gvc:func mulInt64
+//gvc:  props C10 C53
+//gvc:  theory int
+//gvc:  opt wrap_ok
+//gvc:  results r ok
+//gvc:  ensures prod: ok ==> a >= 0 && b >= 0 && r == a * b
+//gvc:  ensures none: !ok ==> a < 0 || b < 0 || a * b > 0x7fffffffffffffff
+//gvc:  ensures zero: !ok ==> r == 0
+//gvc:end
+
+//gvc:func addInt64
+//gvc:  props C10 C53
+//gvc:  theory bv
+//gvc:  results r ok
+//gvc:  ensures sum: ok ==> a >= 0 && b >= 0 && r == a + b
+//gvc:  ensures none: !ok ==> a < 0 || b < 0 || a + b > 0x7fffffffffffffff
+//gvc:  ensures zero: !ok ==> r == 0
+//gvc:end
